@@ -1405,6 +1405,21 @@ def c04(tier, seed):
     # (a) the model: reference = last non-disposable picture, for all histories and TR assignments
     #     (design "current": disposable pictures held outside the TR-keyed store; collisions allowed)
     run.model_check("MCDecoder", "MCDecoder" if tier == "quick" else "MCDecoderDeep", workers=8, xmx="4g")
+    #     and for histories of ANY length and ANY temporal references 0..1023: inductive invariant discharged by Apalache
+    #     (base case Init => IndInv, step IndInv /\ Next => IndInv'; IndInit = any state satisfying IndInv)
+    ind = []
+    for name, args in (("base", ["--init=Init", "--inv=IndInv", "--length=0"]), ("step", ["--init=IndInit", "--inv=IndInv", "--length=1"]),
+                       ("indinit-satisfiable", ["--init=IndInit", "--inv=NotVacuous", "--length=0"])):
+        outcome, secs, tail = core.run_apalache("DecoderInd", args, run.work)
+        want = "Error" if name == "indinit-satisfiable" else "NoError"
+        ind.append({"obligation": name, "outcome": outcome, "expected": want, "wall_s": round(secs, 1)})
+        if outcome != want:
+            if outcome == "Error" and name in ("base", "step"):
+                run.impl_diags.append(({"l": 0, "cls": "IMPL", "what": "inductive-invariant-violated", "sig": "decoder-model-invariant-not-inductive",
+                                        "detail": name}, [{"op": "model", "module": "DecoderInd", "args": args}]))
+            else:
+                run.tool_errors.append("apalache %s: outcome %s\n%s" % (name, outcome, tail))
+    run.notes["apalache_inductive_invariant"] = ind
     # (b) every behaviour of the model up to a length, replayed with real pictures
     gens = []
     r = run_gen_bfs(run, "MCDecoder", "MCDecoderGen3" if tier == "quick" else "MCDecoderGen4")
